@@ -9,6 +9,8 @@ import Mathlib.Tactic.Linarith
 Theorems about `Model/Iter.lean`, the model of `AnalyticalPropagator.iter`, `NumericalPropagator.iter`,
 `KeplerNum._iter`, `Ephem.iter`, `Date.range`, `Orbit.propagate/iter` re-binding and listener clearing.
 `⌊(stop − start)/step⌋` is always expressed by its two bracketing inequalities on `n`.
+Histories consist of `propagate`, `iter` (consumed fully, partly, not at all) and in-place modifications of an orbit by the user;
+`propagate_pure` holds for every history except, under Sgp4, those containing a modification (`Witness/C08.lean`).
 -/
 namespace BeyondVerif.C08
 open BeyondVerif.Iter
@@ -327,13 +329,25 @@ example : numIter 40 8 0 60 { stop := some (.at 420), step := some (some 45) }
 
 /-! ## independence from call history -/
 
-/-- the propagator works from the value of the orbit it was bound to; nothing is bound for an ephemeris -/
+/-- what the propagator holds is current: only Sgp4 keeps something derived from the orbit (its satellite record)
+across calls without re-deriving it; nothing is bound for an ephemeris -/
 def Inv {V : Type} (w : World V) (s : St V) : Prop :=
   match s.bound with
   | none => True
-  | some (j, v) => w.kind ≠ .ephem ∧ v = w.store j
+  | some (j, v) => w.kind ≠ .ephem ∧ (w.kind = .sgp4 → v = cur w s j)
 
-theorem inv_fresh {V : Type} (w : World V) (prev : List (Option Int)) : Inv w ({ prev := prev } : St V) := trivial
+theorem inv_fresh {V : Type} (w : World V) (prev : List (Option Int)) (ver : Nat → Nat) :
+    Inv w ({ prev := prev, ver := ver } : St V) := trivial
+
+theorem bind_ver {V : Type} (w : World V) (s : St V) (i : Nat) : (Iter.bind w s i).ver = s.ver := by
+  unfold Iter.bind; split
+  · rfl
+  · split <;> rfl
+
+theorem bind_prev {V : Type} (w : World V) (s : St V) (i : Nat) : (Iter.bind w s i).prev = s.prev := by
+  unfold Iter.bind; split
+  · rfl
+  · split <;> rfl
 
 theorem bind_inv {V : Type} (w : World V) (s : St V) (i : Nat) (h : Inv w s) : Inv w (Iter.bind w s i) := by
   unfold Iter.bind
@@ -341,34 +355,49 @@ theorem bind_inv {V : Type} (w : World V) (s : St V) (i : Nat) (h : Inv w s) : I
   · exact h
   · split
     · exact h
-    · next hk _ => exact ⟨hk, rfl⟩
+    · next hk _ => exact ⟨hk, fun _ => rfl⟩
 
-/-- after `Orbit.propagate` / `Orbit.iter` have (re)bound the propagator, it works from the value of the receiver —
+/-- after `Orbit.propagate` / `Orbit.iter` have (re)bound the propagator, it works from the CURRENT value of the receiver —
 whatever was bound before, for the setters that keep the object (Sgp4, NonePropagator) and for those that copy -/
-theorem boundVal_bind {V : Type} (w : World V) (s : St V) (i : Nat) (h : Inv w s) : boundVal w (Iter.bind w s i) i = w.store i := by
-  unfold Iter.bind
-  split
-  · next hk =>
-    unfold boundVal
-    unfold Inv at h
-    cases hb : s.bound with
-    | none => rfl
-    | some jv => rw [hb] at h; exact absurd hk h.1
-  · split
-    · next _ hid =>
+theorem boundVal_bind {V : Type} (w : World V) (s : St V) (i : Nat) (h : Inv w s) :
+    boundVal w (Iter.bind w s i) i = cur w s i := by
+  have hcur : ∀ s' : St V, s'.ver = s.ver → cur w s' i = cur w s i := by intro s' e; simp [cur, e]
+  by_cases hn : w.kind = .none
+  · unfold boundVal
+    simp only [hn, if_true]; exact hcur _ (bind_ver w s i)
+  · by_cases he : w.kind = .ephem
+    · have hb : Iter.bind w s i = s := by simp [Iter.bind, he]
+      rw [hb]
       unfold boundVal
+      simp only [hn, if_false]
       unfold Inv at h
-      cases hb : s.bound with
+      cases hbd : s.bound with
       | none => rfl
-      | some jv =>
-        obtain ⟨j, v⟩ := jv
-        rw [hb] at h hid
-        simp only [Option.map_some, Bool.and_eq_true, beq_iff_eq, Option.some.injEq] at hid
-        simp only [h.2, hid.2]
-    · simp [boundVal]
+      | some jv => rw [hbd] at h; exact absurd he h.1
+    · by_cases hid : (w.kind.ident && (s.bound.map (·.1) == some i)) = true
+      · have hb : Iter.bind w s i = s := by simp [Iter.bind, he, hid]
+        rw [hb]
+        unfold boundVal
+        simp only [hn, if_false]
+        unfold Inv at h
+        cases hbd : s.bound with
+        | none => rfl
+        | some jv =>
+          obtain ⟨j, v⟩ := jv
+          rw [hbd] at h hid
+          simp only [Option.map_some, Bool.and_eq_true, beq_iff_eq, Option.some.injEq] at hid
+          have hs : w.kind = .sgp4 := by
+            have := hid.1
+            cases hk : w.kind <;> simp_all [Kind.ident]
+          simp only [h.2 hs, hid.2]
+      · have hb : Iter.bind w s i = { s with bound := some (i, cur w s i), rebinds := s.rebinds + 1 } := by
+          simp [Iter.bind, he, hid]
+        rw [hb]
+        simp [boundVal, hn]
 
+/-- calls other than an in-place modification under Sgp4 keep the invariant -/
 theorem exec_inv {V R : Type} (w : World V) (f : V → Int → R) (cross : V → Int → Int → Bool) (fuel : Nat) (s : St V) (c : Call)
-    (h : Inv w s) : Inv w (exec w f cross fuel s c).1 := by
+    (hm : w.kind = .sgp4 → c.isModify = false) (h : Inv w s) : Inv w (exec w f cross fuel s c).1 := by
   cases c with
   | propagate i d => exact bind_inv w s i h
   | iter i a ls consume =>
@@ -379,12 +408,25 @@ theorem exec_inv {V R : Type} (w : World V) (f : V → Int → R) (cross : V →
     · have := bind_inv w s i h
       unfold Inv at this ⊢
       exact this
+  | modify i =>
+    unfold exec Inv at *
+    simp only
+    cases hb : s.bound with
+    | none => trivial
+    | some jv =>
+      rw [hb] at h
+      refine ⟨h.1, fun hs => ?_⟩
+      have := hm hs
+      simp [Call.isModify] at this
 
-theorem runHist_inv {V R : Type} (w : World V) (f : V → Int → R) (cross : V → Int → Int → Bool) (fuel : Nat) (hist : List Call) :
+theorem runHist_inv {V R : Type} (w : World V) (f : V → Int → R) (cross : V → Int → Int → Bool) (fuel : Nat) (hist : List Call)
+    (hm : w.kind = .sgp4 → ∀ c ∈ hist, c.isModify = false) :
     ∀ s : St V, Inv w s → Inv w (runHist (R := R) w f cross fuel s hist) := by
   induction hist with
   | nil => intro s h; exact h
-  | cons c r ih => intro s h; exact ih _ (exec_inv w f cross fuel s c h)
+  | cons c r ih =>
+    intro s h
+    exact ih (fun hs c' hc' => hm hs c' (by simp [hc'])) _ (exec_inv w f cross fuel s c (fun hs => hm hs c (by simp)) h)
 
 theorem getD_setPrev_none (prev : List (Option Int)) (ls : List Nat) (j : Nat) (hj : j ∈ ls) : (setPrev prev ls none).getD j none = none := by
   unfold setPrev
@@ -394,19 +436,24 @@ theorem getD_setPrev_none (prev : List (Option Int)) (ls : List Nat) (j : Nat) (
 
 theorem events_nil (cross : Int → Int → Bool) (p : Option Int) : events cross p [] = [] := by cases p <;> rfl
 
+/-- fresh objects holding the same orbit values: nothing bound, listeners empty -/
+def freshOf {V : Type} (s : St V) : St V := { prev := List.replicate s.prev.length none, ver := s.ver }
+
 /-- **propagate_pure** (one call): the observable result of a `propagate` or `iter` call — dates, end, states, events of every
 passed listener — is the same from ANY state of the shared objects (propagator bound to any orbit, listeners holding anything)
-as from fresh objects. -/
+as from fresh objects with the same orbit values. -/
 theorem call_result_pure {V R : Type} (w : World V) (f : V → Int → R) (cross : V → Int → Int → Bool) (fuel : Nat) (s : St V)
     (c : Call) (h : Inv w s) :
-    (exec w f cross fuel s c).2 = (exec w f cross fuel ({ prev := List.replicate s.prev.length none } : St V) c).2 := by
-  have hfresh : Inv w ({ prev := List.replicate s.prev.length none } : St V) := trivial
+    (exec w f cross fuel s c).2 = (exec w f cross fuel (freshOf s) c).2 := by
+  have hfresh : Inv w (freshOf s) := trivial
+  have hcur : ∀ i, cur w (freshOf s) i = cur w s i := fun i => rfl
   cases c with
   | propagate i d =>
-    simp only [exec, boundVal_bind w s i h, boundVal_bind w _ i hfresh]
+    simp only [exec, boundVal_bind w s i h, boundVal_bind w _ i hfresh, hcur]
+  | modify i => rfl
   | iter i a ls consume =>
     unfold exec
-    simp only [boundVal_bind w s i h, boundVal_bind w _ i hfresh]
+    simp only [boundVal_bind w s i h, boundVal_bind w _ i hfresh, hcur, bind_prev]
     by_cases hc : consume = 0
     · simp [hc]
     · simp only [hc, if_false]
@@ -424,21 +471,24 @@ theorem call_result_pure {V R : Type} (w : World V) (f : V → Int → R) (cross
         rw [this]
         simp only [List.map_nil, Bool.false_eq_true, if_false, events_nil]
 
-/-- **propagate_pure**: for EVERY history of `propagate` / `iter` calls (any orbits sharing the propagator, any listeners,
-iterators consumed fully, partly or not at all) the result of the next call equals the result of that call on fresh objects. -/
+/-- **propagate_pure**: for EVERY history of `propagate` / `iter` calls and of in-place modifications of the orbits by the user
+(any orbits sharing the propagator, any listeners, iterators consumed fully, partly or not at all) the result of the next call
+equals the result of that call on fresh objects holding the current orbit values — provided, for Sgp4, that the history contains
+no in-place modification (`Witness/C08.lean: sgp4_stale_after_modify` shows the hypothesis is needed: known finding). -/
 theorem propagate_pure {V R : Type} (w : World V) (f : V → Int → R) (cross : V → Int → Int → Bool) (fuel nls : Nat)
-    (hist : List Call) (c : Call) :
+    (hist : List Call) (c : Call) (hm : w.kind = .sgp4 → ∀ c ∈ hist, c.isModify = false) :
     let s0 : St V := { prev := List.replicate nls none }
     let s := runHist (R := R) w f cross fuel s0 hist
-    (exec w f cross fuel s c).2 = (exec w f cross fuel ({ prev := List.replicate s.prev.length none } : St V) c).2 := by
+    (exec w f cross fuel s c).2 = (exec w f cross fuel (freshOf s) c).2 := by
   intro s0 s
-  exact call_result_pure w f cross fuel s c (runHist_inv w f cross fuel hist s0 trivial)
+  exact call_result_pure w f cross fuel s c (runHist_inv w f cross fuel hist hm s0 trivial)
 
-/-- every yielded state is what a direct propagation of the receiver to that date gives (in the model: `f (store i) date`) -/
+/-- every yielded state is what a direct propagation of the receiver, as it is now, to that date gives
+(in the model: `f (current value of orbit i) date`) -/
 theorem iter_eq_map_propagate {V R : Type} (w : World V) (f : V → Int → R) (cross : V → Int → Int → Bool) (fuel : Nat) (s : St V)
     (i : Nat) (a : Args) (ls : List Nat) (consume : Nat) (h : Inv w s) :
     (exec w f cross fuel s (.iter i a ls consume)).2.states
-      = (exec w f cross fuel s (.iter i a ls consume)).2.run.dates.map (f (w.store i)) := by
+      = (exec w f cross fuel s (.iter i a ls consume)).2.run.dates.map (f (cur w s i)) := by
   unfold exec
   simp only [boundVal_bind w s i h]
   first | rfl | (split <;> rfl)
@@ -453,7 +503,7 @@ theorem ident_table_matches (k : Kind) : Generated.orbitSetterKeepsObject.lookup
   cases k <;> decide
 
 /-- the interpolation order the numerical iterator pads to is `Ephem.DEFAULT_ORDER` of the source -/
-theorem order_matches : ({ kind := .num, store := id, epoch := fun _ => 0 } : World Nat).order = Generated.ephemDefaultOrder := by
+theorem order_matches : ({ kind := .num, store := fun i _ => i, epoch := fun _ => 0 } : World Nat).order = Generated.ephemDefaultOrder := by
   decide
 
 end BeyondVerif.C08
